@@ -9,6 +9,7 @@ import (
 	"fmt"
 	"hash/fnv"
 	"math/rand"
+	"regexp"
 	"strconv"
 	"strings"
 
@@ -322,6 +323,80 @@ func eval(c *ctx, text string) {
 	o.Sig("%016x", h.Sum64())
 }
 
+// charsetNames: what an application may pass to SetBodyWithCharset.
+var charsetNames = []string{"ISO-8859-1", "iso-8859-1", "UTF-8", "utf-8", "utf8", "iso-8859-15", "us-ascii", "windows-1252", "latin1", "", "x-unknown"}
+
+var charsetParam = regexp.MustCompile(`(?i)charset="?([^";\s]+)`)
+
+// evalCharset: the second entry point. Whatever charset name the caller passes, the message must be
+// consistent with itself: the stored body, read in the character set the message DECLARES, is the
+// input text (apart from line-end normalisation), and Body() gives the text back. (A declared
+// character set other than ISO-8859-1 / UTF-8 is counted, not judged; a refusal is not a violation.)
+func evalCharset(c *ctx, cs, text string) {
+	o := c.o
+	o.Evals++
+	var (
+		m       *fbb.Message
+		wire    []byte
+		setErr  error
+		bodyStr string
+		bodyErr error
+	)
+	if vrt.Guard(o, func() {
+		m = &fbb.Message{Header: fbb.Header{}}
+		m.Header.Set("Mid", "C18CHARSET")
+		if setErr = m.SetBodyWithCharset(cs, text); setErr == nil {
+			var err error
+			if wire, err = m.Bytes(); err != nil {
+				panic("Bytes() failed after SetBodyWithCharset: " + err.Error())
+			}
+			bodyStr, bodyErr = m.Body()
+		}
+	}) {
+		return
+	}
+	if setErr != nil {
+		o.Count("setbodywithcharset_refused", 1)
+		return
+	}
+	ref, err := msgref.Parse(wire)
+	if err != nil {
+		c.violate("charset:unparseable", text, "the serialised message is not well-formed (%v) after SetBodyWithCharset(%q)", err, cs)
+		return
+	}
+	declared := "ISO-8859-1" // the format's default when nothing is declared
+	if ct, ok := ref.Get("Content-Type"); ok {
+		if mm := charsetParam.FindStringSubmatch(ct); mm != nil {
+			declared = mm[1]
+		}
+	}
+	var want []byte
+	switch strings.ToLower(declared) {
+	case "iso-8859-1":
+		want = toLatin1(text)
+	case "utf-8", "utf8":
+		want = []byte(text)
+	default:
+		o.Count("declared_charset_not_judged", 1)
+		return
+	}
+	o.Count("setbodywithcharset_judged", 1)
+	if a, b := stripCRLF(want), stripCRLF(ref.Body); !bytes.Equal(a, b) {
+		d := firstDiff(a, b)
+		c.violate("charset:stored-differs", text, "SetBodyWithCharset(%q): the message declares %s, but the stored body is not the text in that character set (differs at text byte %d: expected %s stored %s)", cs, declared, d, window(a, d), window(b, d))
+	}
+	if hv, ok := ref.Get("Body"); !ok || hv != strconv.Itoa(len(ref.Body)) {
+		c.violate("charset:body-header", text, "SetBodyWithCharset(%q): Body header %q, stored body has %d bytes", cs, hv, len(ref.Body))
+	}
+	strip := func(s string) string { return strings.NewReplacer("\r", "", "\n", "").Replace(s) }
+	if bodyErr != nil || strip(bodyStr) != strip(text) {
+		c.violate("charset:body-accessor", text, "SetBodyWithCharset(%q): Body() (err %v) does not give the text back: %q...", cs, bodyErr, bodyStr[:min(len(bodyStr), 40)])
+	}
+	h := fnv.New64a()
+	h.Write([]byte(cs + "|" + text))
+	o.Sig("cs%016x", h.Sum64())
+}
+
 // ---- workloads --------------------------------------------------------------------------------------
 
 var lineLengths = []([]int){
@@ -422,6 +497,13 @@ func runFixed(c *ctx) {
 		"=?utf-8?q?x?=", "=C3=A9 =E9 =\n", "=\r\n", "--boundary\n", "\u00e2\u0082\u00ac 5\n")
 	for _, t := range texts {
 		eval(c, t)
+	}
+	for i, t := range []string{"", "plain ascii\n", "Bl\u00e5b\u00e6rsyltet\u00f8y\n", "\u00bd \u00a4 \u00a6 \u00a8 \u00b4 \u00b8 \u00bc \u00be\n", "\u00ff\u00fe\u00fd", "\u0080\u009f\u00a0", all.String(), "x\u00e9\r\ny\u00fc\n\nz",
+		strings.Repeat("\u00e6", 1500) + "\n", strings.Repeat("a", 997) + "\u00f8b\n", "\u00c3\u00a9 mojibake\n"} {
+		for _, cs := range charsetNames {
+			evalCharset(c, cs, t)
+		}
+		_ = i
 	}
 	c.o.Sample = map[string]any{"kind": "fixed", "texts": len(texts)}
 }
@@ -528,6 +610,9 @@ func run(cs vrt.Case) vrt.Obs {
 				first = t
 			}
 			eval(c, t)
+			if i%10 == 7 && len(t) < 20000 {
+				evalCharset(c, charsetNames[r.Intn(len(charsetNames))], t)
+			}
 		}
 		o.Sample = map[string]any{"kind": "random", "texts": p.N, "first": describe(first)}
 	}
